@@ -110,3 +110,24 @@ package main
 //@   loop 1
 //@     invariant[C20:count-is-consecutive-failures] badHealthChecks == consec && consec >= 0
 //@     invariant[C20:exit-at-threshold] consec < *healthCheckUnhealthy && *healthCheckUnhealthy == max(1, old(*healthCheckUnhealthy)) && *healthCheckFreq > 0
+
+// ---- the handler chain (C05, C07, C13, C14) ----
+// The reverse proxy targets exactly the configured backend host over http, flushes streamed bodies at least every
+// 100 ms (C05: chunks are not held back), keeps httputil's default error handler (which answers 502 when the backend
+// cannot be reached, C07), and rewrites responses only through the shim-script injector and only when that is enabled.
+//@ func hostProxy props(C05,C07,C13,C14)
+//@   ghost rp *httputil.ReverseProxy = nil
+//@   ghost shims int = 0
+//@   call httputil.NewSingleHostReverseProxy
+//@     assert[C13:reverse-proxy-targets-the-configured-backend-over-http] rp == nil && arg0 != nil && arg0.Scheme == "http" && arg0.Host == host && arg0.Path == "" && arg0.RawPath == "" && arg0.RawQuery == "" && arg0.Opaque == "" && arg0.User == nil
+//@     do rp = ret0
+//@   call (*sessions.Cache).SessionHandler
+//@     assert[C05:streamed-bodies-flushed-at-least-every-100ms] rp != nil && arg1 == box(rp) && rp.FlushInterval != 0 && rp.FlushInterval <= 100000000
+//@     assert[C07:default-502-error-handler-kept] rp.ErrorHandler == nil
+//@   call websockets.ShimBody
+//@     assert[C14:script-injector-only-when-enabled] injectShimCode && shimPath != "" && arg0 == shimPath && shims == 0
+//@     do shims = shims + 1
+//@   return *
+//@     assert[C14:responses-rewritten-only-by-the-script-injector] rp != nil && (shims == 0 ==> rp.ModifyResponse == nil) && rp.Rewrite == nil
+//@     assert[C05:flush-interval-kept] rp.FlushInterval != 0 && rp.FlushInterval <= 100000000
+//@     assert[C07:error-handler-kept] rp.ErrorHandler == nil
